@@ -1,44 +1,59 @@
 package rules
 
+// Property definitions: which rules decide which structural clauses of each
+// property, and what is — stated plainly — not decided.
+
+var commonAssumptions = []string{
+	"the analysed program is the production code of ./... of /repo's working tree under the default build tags (no build-tagged non-test files exist); _test.go files and the helper packages test/... and */testcases are out of scope",
+	"rules are path-insensitive: a guard counts only if it cuts every CFG path to the site; dataflow is per function with explicit summaries where stated",
+	"call resolution: static callees, interface calls resolved to every implementing type of the module (quick) or VTA (thorough); calls through other function values are followed only for closures passed as arguments",
+	"no code is executed: value-level arithmetic, the merge algorithms proper and timing are not decided",
+}
+
 func init() {
-	property(&Property{ID: "C09",
-		Rules:       []string{"S1", "S2", "S3", "N3", "N1", "N2"},
-		Explanation: "tbd",
-		Assumptions: []string{"tbd"},
-	})
-	property(&Property{ID: "C08",
-		Rules:       []string{"O5.clone", "O1.update", "O2.trim", "O1.history"},
-		Explanation: "tbd",
-		Assumptions: []string{"tbd"},
+	property(&Property{ID: "C10",
+		Rules: []string{"L4c", "CMP.order", "DB.compact", "O3.epoch", "L8", "A4.log"},
+		Explanation: "Decides the exclusion, ordering and epoch structure of compaction. Decided: Compact/Purge run under the exclusive document lock and everything that reads the log to write derived state (rebuilds that populate the snapshot cache, snapshot rows, revisions) holds the document lock (L4c); the reset happens only for a non-attached document or under force, never after a content mismatch, after cache invalidation, conditional on the head the rebuild saw (CMP.order); purge, compacted change, epoch+1 and compare-and-set are one committed transaction (DB.compact, L8); only packs.Compact and documents.CreateDocument reset the log (A4.log); stale-epoch changes never reach the log, stale pulls return ErrEpochMismatch, the detach/remove exception is taken only for that sentinel (O3.epoch). Not decided: that the YSON rebuild preserves content for every document (C18) — known finding F19 shows it does not for dedup counters.",
+		Assumptions: commonAssumptions,
 	})
 	property(&Property{ID: "C01",
-		Rules:       []string{"K.compare", "O2.lww", "O2.rga", "A1", "K.id"},
-		Explanation: "tbd",
-		Assumptions: []string{"tbd"},
+		Rules: []string{"K.compare", "O2.lww", "O2.rga", "A1", "K.id", "O1.history", "O1.update"},
+		Explanation: "Decides structural necessary conditions of convergence, not convergence itself. Decided: the ticket order is total and uses every identity component of both operands with the documented polarity (K.compare); every last-writer-wins register (element/text-node/tree-node removal, object key slots, attribute slots, the array position register) is written only on an edge where the incoming ticket is after the stored stamp or the slot is empty, with the visibility preconditions (creation known, tombstone unknown) in place (O2.lww); the RGA skip loops continue exactly while the neighbour's ticket is after the inserting one (O2.rga); version vectors of already-created changes are never mutated in place (A1, K.id); every operation is executed with the version vector of its own change and remote changes are executed on clone and document in pack order (O1.history, O1.update). Not decided: that the merge functions commute (the CRDT algorithms themselves), array-move/counter/text/tree interleavings, byte-identical marshalling.",
+		Assumptions: commonAssumptions,
 	})
 	property(&Property{ID: "C03",
-		Rules:       []string{"O2.purge", "VV.server", "K.vv", "O2.cache"},
-		Explanation: "tbd",
-		Assumptions: []string{"tbd"},
-	})
-	property(&Property{ID: "C06",
-		Rules:       []string{"K.id", "A1", "K.vv", "K.compare"},
-		Explanation: "tbd",
-		Assumptions: []string{"tbd"},
-	})
-	property(&Property{ID: "C11",
-		Rules:       []string{"O2.state", "O3.attach", "O2.removed", "O1.deactivate"},
-		Explanation: "tbd",
-		Assumptions: []string{"tbd"},
+		Rules: []string{"O2.purge", "VV.server", "K.vv", "O2.cache", "ANCHOR"},
+		Explanation: "Decides the guards and data provenance that make purging safe, not the equality of histories with GC on and off. Decided: both Purge sites of Root.GarbageCollect sit on the true edge of minVector.EqualToOrAfter(removedAt of the very node being purged) (O2.purge); EqualToOrAfter is false for an absent actor and otherwise vector[actor] >= lamport, MinVersionVector writes 0 for a key any vector lacks and min otherwise (K.vv); the server stores the *request's* vector per client, deletes the row of a non-attached client, computes the minimum over the requester and every stored row without filter, and runs its own GC only with that minimum and only when enabled (VV.server); the server rebuild never uses a cache entry newer than requested (O2.cache); array operations created locally anchor on live positions and on position identities (ANCHOR). Not decided: that min-vector bookkeeping is right for every schedule; text/tree anchors.",
+		Assumptions: commonAssumptions,
 	})
 	property(&Property{ID: "C04",
-		Rules:       []string{"A4.log", "L4a", "L4b", "O2.dedup", "O2.own", "PULL.range", "O1.pipeline", "L3", "L8", "DB.append"},
-		Explanation: "tbd",
-		Assumptions: []string{"tbd"},
+		Rules: []string{"A4.log", "L4a", "L4b", "O2.dedup", "O2.own", "PULL.range", "O1.pipeline", "L3", "L8", "DB.append"},
+		Explanation: "Decides the serialisation, atomicity and filtering structure of the log, not the arithmetic of ranges under concurrency (that is what the locks are for; the rules check the locks). Decided: only the push function of server/packs appends to the log and only with the push lock held whenever the list may be non-empty, on a DocInfo re-read under that lock (A4.log, L4a); every PushPull caller holds the document lock and, for real clients, the per-(client,document) pull lock, in the documented order (L4b, L3); memdb assigns serverSeq only through IncreaseServerSeq once per change in input order, writes changes and document row in one committed transaction, compare-and-set on the initial ServerSeq (L8, DB.append); already-stored changes are dropped by ClientSeq > stored checkpoint and gaps are rejected (O2.dedup); own changes are filtered from pulls by (actor, ClientSeq <= checkpoint after push) (O2.own); the pulled range is (request checkpoint, head before own push] with the head computed from the DocInfo returned by the append (PULL.range); validate ≺ push ≺ pull ≺ status ≺ min-vector ≺ checkpoint persist ≺ success (O1.pipeline).",
+		Assumptions: commonAssumptions,
+	})
+	property(&Property{ID: "C06",
+		Rules: []string{"K.id", "A1", "K.vv", "K.compare", "VV.server"},
+		Explanation: "Decides the shape of the clock producers and of the minimum-vector inputs. Decided: Next yields lamport+1 and SyncClocks/SyncLamport/SetClocks yield max(own, other)+1; the value stored at versionVector[own actor] is that same value; the updated vector is a DeepCopy of the receiver's and is the one returned; the other vector is merged exactly in SyncClocks/SetClocks; clientSeq is +1 in Next and preserved elsewhere (K.id); no in-place mutator is applied to a vector that is not fresh (A1); Max/MinVersionVector/EqualToOrAfter/MaxLamport kernels (K.vv); ticket order (K.compare); the minimum the server hands out is computed from the request vectors of all stored rows plus the requester (VV.server). Not decided: uniqueness of (lamport, actor) over histories.",
+		Assumptions: commonAssumptions,
+	})
+	property(&Property{ID: "C08",
+		Rules: []string{"O5.clone", "O1.update", "O2.trim", "O1.history"},
+		Explanation: "Decides the all-or-nothing structure of Update and the clone/document lock-step. Decided: every failure exit after the updater ran (error, schema, size, panic) discards the clone; undo/redo discards the clone on every failure after the clone executed (O5.clone); the real root is executed only after the clone succeeded and the checks passed, with the same change; localChanges and changeID are committed together after the root execution succeeded; remote changes go to clone then document in the same iteration; GC purges both with the same vector; a snapshot discards the clone and replays unacknowledged local changes after trimming (O1.update); local changes are dropped only when acknowledged (O2.trim); history pushes/pops are on the right edges and carry the reverse of what was executed (O1.history). Not decided: that an Execute error on the real root after the clone succeeded cannot happen (same operations on equal state — value-level).",
+		Assumptions: commonAssumptions,
+	})
+	property(&Property{ID: "C09",
+		Rules: []string{"S1", "S2", "S3", "N3", "N1", "N2"},
+		Explanation: "Decides encoder/decoder agreement and decoder robustness structurally. Decided: every dispatch over operation types, element types and protobuf oneofs has a case for every member (S1); for each of the data-plane message types reachable from ChangePack and Snapshot the set of fields written equals the set read, sibling builders and sibling decoders of one message agree (S2); every persistent field of the CRDT structs and operation structs is read by the encoder closure and written by the decoder closure or is in the derived table (S3); under the wire model no message pointer that may be nil is dereferenced without a dominating nil test (N1); fixed-width reads are length-guarded numerically (N2); no single-value type assertion on decoded data (N3). Not decided: semantic equality of decoded values; panics from arithmetic deep inside CRDT constructors; hangs.",
+		Assumptions: append([]string{"wire model: after proto.Unmarshal elements of repeated fields, map values and oneof inner messages are non-nil; singular message fields, oneof bodies and entry-point arguments may be nil"}, commonAssumptions...),
+	})
+	property(&Property{ID: "C11",
+		Rules: []string{"O2.state", "O3.attach", "O2.removed", "O1.deactivate", "VV.server"},
+		Explanation: "Decides the guards of the lifecycle state machine, not its full accept/reject table. Decided: the Ensure* predicates succeed only for an activated client with an attached (or attaching) existing entry; Detach/Remove write the status only after the ensure succeeded; Attach writes only for an activated, not-already-attached/detached client; UpdateDocStatus dispatches by status (O2.state); inside PushPull nothing is stored unless the attachment check passed or the client is the server's own, ClientInfo values come from FindActiveClientInfo (O3.attach); a removed document takes no further change and every response carries the removed state (O2.removed); Deactivate detaches every attached/attaching document before DeactivateClient, and the backend refuses otherwise (O1.deactivate); the version-vector row of a non-attached client is deleted (VV.server).",
+		Assumptions: commonAssumptions,
 	})
 	property(&Property{ID: "C16",
-		Rules:       []string{"L1", "L2", "L3"},
-		Explanation: "tbd",
-		Assumptions: []string{"tbd"},
+		Rules: []string{"L1", "L2", "L3", "L4a", "L4b", "L8"},
+		Explanation: "Decides lock discipline structurally. Decided: every named-lock acquisition belongs to a known class and every key constructor depends on all of its parameters (L1); every acquisition is released with the matching kind on every exit (L2); the interprocedural may-hold/acquire graph embeds in doc < pull < attachment < push with snapshot/watchstream/housekeeping as leaves and no class re-acquired (L3) — under the stated assumptions this excludes lock-order deadlock among the named locks; the log append holds the push lock and PushPull callers hold doc and pull (L4a, L4b); memdb write transactions are aborted on early exit, committed on success, never nested (L8). Not decided: liveness under load, races on state outside the listed locks (the race detector's domain).",
+		Assumptions: append([]string{"all blocking locks of the pipeline are the named classes, go-memdb's writer lock and the listed mutexes; goroutines started with go/Backend.Go/errgroup start with no locks held"}, commonAssumptions...),
 	})
 }
